@@ -118,13 +118,17 @@ func kdBlankSA(st suite, grp int) *security.IKESAKey {
 }
 
 func kdDerive(sa *security.IKESAKey, nonce, secret []byte, spiI, spiR uint64) callRes {
-	n, s := argBuf("ikekeys.nonce", nonce), argBuf("ikekeys.secret", secret)
+	n, chkN := argBufChecked("ikekeys.nonce", nonce)
+	s, chkS := argBufChecked("ikekeys.secret", secret)
 	r := guard(func() (string, error) {
 		if err := sa.GenerateKeyForIKESA(n, s, spiI, spiR); err != nil {
 			return "", err
 		}
 		return kdKeysStr(sa), nil
 	})
+	if w := chkN() + chkS(); w != "" {
+		r = callRes{kind: "ok", val: "CALLER-MEMORY-WRITTEN " + w}
+	}
 	// the caller's buffers are the caller's: scribbling over them must not reach the SA
 	for i := range n {
 		n[i] = 0xA5
@@ -797,8 +801,9 @@ func kdChildStr(ck *security.ChildSAKey) string {
 
 func kdChildDerive(ck *security.ChildSAKey, sa *security.IKESAKey, nonce []byte) callRes {
 	var n []byte
+	chk := func() string { return "" }
 	if nonce != nil {
-		n = argBuf("childkeys.nonce", nonce)
+		n, chk = argBufChecked("childkeys.nonce", nonce)
 	}
 	r := guard(func() (string, error) {
 		if err := ck.GenerateKeyForChildSA(sa, n); err != nil {
@@ -806,6 +811,9 @@ func kdChildDerive(ck *security.ChildSAKey, sa *security.IKESAKey, nonce []byte)
 		}
 		return kdChildStr(ck), nil
 	})
+	if w := chk(); w != "" { // arguments are read-only, including the memory behind their length
+		r = callRes{kind: "ok", val: "CALLER-MEMORY-WRITTEN " + w}
+	}
 	return r // the nonce buffer is refilled in place by the next derivation (argBuf)
 }
 
